@@ -24,6 +24,24 @@ def spec(level, extra_assume=None, run=default_run):
 
 
 TABLE = {
+    "C10": spec("model_checking", [
+        "reference sums/differences in f64 with running forward-error bound; bit equality only where certified exact",
+        "intervals are judged as the crate computes them ((ns as f32)/1e9), so an interval such as 2.25 s, whose "
+        "nanosecond count needs 25 bits, is not treated as exact"]),
+    "C11": spec("model_checking", [
+        "what get() returns between an input error and the next present sample when a different command is set in "
+        "between is left open (error or absent both accepted)"]),
+    "C04": spec("model_checking", [
+        "reference PID computed in f64 with a running forward-error bound; bit equality is demanded only where a "
+        "certificate shows every evaluation order to be exact in f32 (dyadic alphabet), otherwise 8x the bound",
+        "the composed controller updates all its inner streams on every round (assembly by the harness after examples/pid.rs)"]),
+    "C02": spec("model_checking", [
+        "corners the documentation leaves open are accepted both ways: first operand absent with second erroring "
+        "(difference/quotient/exponent), absent input with failing time getter (expirer), and/or timestamps "
+        "(newest of all present inputs or newest of the deciding ones)"]),
+    "C03": spec("model_checking", [
+        "equal timestamps: any candidate that no other candidate is strictly newer than is accepted",
+        "the table of Datum operator impls is cross-checked against a scan of /repo/src/datum.rs at run time"]),
     "C05": spec("model_checking", [
         "the per-stream reset policy table (which of absent/error is a reset, which streams ignore absent samples) is "
         "transcribed from the crate's documentation and property statement",
